@@ -19,6 +19,7 @@ BOUNDS = {
     "quick": "exhaustive for <=2 vertices (dims 3,2) and <=2 edges of arity 1..2 in every vertex order x every fixed subset x fix_first_pose, plus curated structures: 1..3 vertices of mixed compact dimension (2,3,3,6), <=3 edges of arity 1..3 in any vertex order incl. parallel and reversed edges, several fixed subsets, fix_first_pose in {True,False}; error dimension 2",
     "thorough": "exhaustive: all ordered vertex tuples (arity 1..3) for <=2 edges over <=3 vertices, two dimension patterns, every fixed subset, both fix_first_pose values; plus seeded 4-vertex / 3..4-edge structures",
 }
+BOUNDS = {k: v + "; relinearized (graph already linearised at this state), two-call (flags edited between optimize() calls) and any-chi2 (chi^2 a free value per graph state: the step may raise it) variants of the curated structures" for k, v in BOUNDS.items()}
 OUTSIDE = "rounding and the numerical quality of SuperLU; graphs beyond the bound (assembly is a fold over edges, the per-edge scatter is what is verified); edges naming the same vertex twice"
 ASSUMPTIONS = ["information matrices symmetric", "vertex ids pairwise distinct", "spsolve stub returns an arbitrary vector (its contract H dx = rhs is not needed for this property)", "lil_matrix stub = dense object matrix with numpy slice-assignment semantics"]
 
